@@ -1,7 +1,7 @@
 package main
 
 // C12, chain level: kernel/cosi.go cosiRetrieveRandom / retainUsedCosiNonce on a bare Chain
-// (hook kernel.VerifNewNonceChain) against Mixin.Nonce.retrieve. Nonces are named by small
+// (hook kernel.VerifC12NewNonceChain) against Mixin.Nonce.retrieve. Nonces are named by small
 // numbers (their seed), snapshots by numbers.
 
 import (
@@ -13,43 +13,43 @@ import (
 	"github.com/MixinNetwork/mixin/kernel"
 )
 
-const nonceBookRetained = 1024 * 128 // the local constant maximumRetainedNonces of retainUsedCosiNonce
+const c12NonceBookRetained = 1024 * 128 // the local constant maximumRetainedNonces of retainUsedCosiNonce
 
-type nonceBook struct {
+type c12NonceBook struct {
 	chain   *kernel.Chain
 	chainId crypto.Hash
 	names   map[crypto.Key]int // commitment -> name
 	handed  map[int]int        // nonce name -> snapshot it was handed out for
 }
 
-func bookNonce(name int) *crypto.CosiNonce {
+func c12BookNonce(name int) *crypto.CosiNonce {
 	seed := bytes.Repeat([]byte{byte(name), byte(name >> 8), 0x5a, 0xc3}, 16)
 	return crypto.CosiCommitNonce(bytes.NewReader(seed))
 }
 
-func bookSnap(s int) crypto.Hash {
+func c12BookSnap(s int) crypto.Hash {
 	var h crypto.Hash
 	h[0], h[1], h[31] = byte(s), byte(s>>8), 0x77
 	return h
 }
 
-func execNonceBook(ns *nonceState, t []string, res Result) Result {
+func c12ExecNonceBook(ns *c12NonceState, t []string, res Result) Result {
 	switch t[0] {
 	case "book": // book <maxRetained> name*
 		var max int
 		fmt.Sscan(t[1], &max)
-		if max != nonceBookRetained {
+		if max != c12NonceBookRetained {
 			panic("harness: book bound must be the constant of retainUsedCosiNonce")
 		}
-		b := &nonceBook{names: map[crypto.Key]int{}, handed: map[int]int{}}
+		b := &c12NonceBook{names: map[crypto.Key]int{}, handed: map[int]int{}}
 		b.chainId[0], b.chainId[1] = 0xc1, 0x2
 		var nodeId crypto.Hash
 		nodeId[0] = 0xee
-		b.chain = kernel.VerifNewNonceChain(b.chainId, nodeId)
+		b.chain = kernel.VerifC12NewNonceChain(b.chainId, nodeId)
 		for _, tok := range t[2:] {
 			var name int
 			fmt.Sscan(tok, &name)
-			n := bookNonce(name)
+			n := c12BookNonce(name)
 			b.chain.CosiRandoms[n.Public()] = n
 			b.names[n.Public()] = name
 		}
@@ -63,10 +63,10 @@ func execNonceBook(ns *nonceState, t []string, res Result) Result {
 		var snap, name int
 		fmt.Sscan(t[1], &snap)
 		fmt.Sscan(t[2], &name)
-		commitment := bookNonce(name).Public()
+		commitment := c12BookNonce(name).Public()
 		var got *crypto.CosiNonce
 		out, _, _ := Catch(func() string {
-			got = b.chain.VerifCosiRetrieveRandom(bookSnap(snap), b.chainId, &commitment)
+			got = b.chain.VerifC12CosiRetrieveRandom(c12BookSnap(snap), b.chainId, &commitment)
 			return ""
 		})
 		if out == "panic" {
@@ -91,7 +91,7 @@ func execNonceBook(ns *nonceState, t []string, res Result) Result {
 			res.Nontrivial = true
 		}
 		var us []string
-		for _, h := range b.chain.VerifUsedRandomsOrder() {
+		for _, h := range b.chain.VerifC12UsedRandomsOrder() {
 			u := b.chain.UsedRandoms[h]
 			nm := "?"
 			if u != nil {
@@ -105,13 +105,13 @@ func execNonceBook(ns *nonceState, t []string, res Result) Result {
 	return res
 }
 
-func genNonceBook(r *Rand) []string {
+func c12GenNonceBook(r *Rand) []string {
 	m := 1 + r.Intn(8)
 	var names []string
 	for i := 1; i <= m; i++ {
 		names = append(names, fmt.Sprint(i))
 	}
-	lines := []string{fmt.Sprintf("book %d %s", nonceBookRetained, strings.Join(names, " "))}
+	lines := []string{fmt.Sprintf("book %d %s", c12NonceBookRetained, strings.Join(names, " "))}
 	for j := 4 + r.Intn(12); j > 0; j-- {
 		lines = append(lines, fmt.Sprintf("retrieve %d %d", 1+r.Intn(4), r.Intn(m+2)))
 	}
